@@ -232,7 +232,10 @@ def part_anonymize(ctx, tmp):
             warnings.simplefilter("ignore")
             base = list(compile_files(["main.vy"], ["bytecode", "integrity"], paths=["0", ".."], include_sys_path=False).values())[0]
             try:
-                arch = list(compile_files(["main.vy"], ["archive"], paths=["0", ".."], include_sys_path=False).values())[0]["archive"]
+                import contextlib
+                import io
+                with contextlib.redirect_stdout(io.StringIO()), contextlib.redirect_stderr(io.StringIO()):
+                    arch = list(compile_files(["main.vy"], ["archive"], paths=["0", ".."], include_sys_path=False).values())[0]["archive"]
             except VyperException:
                 arch = None   # refusing to write an ambiguous bundle is fine
             (tmp / "anon" / "a.zip").write_bytes(arch or b"")
